@@ -243,7 +243,8 @@ fn %(name)s() {
 
 
 def sched_suite(tier):
-    inst = [(2, 1, 8), (2, 2, 11), (1, 1, 9)] if tier == "quick" else [(2, 1, 8), (2, 2, 11), (1, 1, 9), (2, 3, 8), (1, 3, 8), (2, 1, 12), (2, 2, 15), (1, 2, 13), (2, 1, 16)]
+    # quick: Argon2id with one and two passes (m = 11 is not a multiple of 4); Argon2i (every segment data-independent, ~10 min) is thorough
+    inst = [(2, 1, 8), (2, 2, 11)] if tier == "quick" else [(2, 1, 8), (2, 2, 11), (1, 1, 9), (2, 3, 8), (2, 1, 12), (2, 2, 15), (1, 2, 13), (2, 1, 16)]
     src = rs.prelude()
     hs = []
     if tier != "quick":
@@ -271,7 +272,7 @@ def sched_suite(tier):
 def suites(tier, seed):
     src = rs.prelude() + rs.load("rng.rs")
     hs = []
-    Ts = [16, 64, 65, 96, 97] if tier == "quick" else [5, 16, 32, 63, 64, 65, 95, 96, 97, 127, 128, 129, 160, 200, 256]
+    Ts = [16, 64, 65] if tier == "quick" else [5, 16, 32, 63, 64, 65, 95, 96, 97, 127, 128, 129, 160, 200, 256]
     for T in Ts:
         n = "c09_longhash_T%d" % T
         src += h_longhash(n, T)
